@@ -78,6 +78,11 @@ def make_behaviors(rng, thorough):
     combos.append(("VM+linear+Norton 3D", lambda **kw: Behavior(3, el(), yieldSurface=Yield.VonMises(sy), hardening=IsotropicHardening.Linear(20.0), rate=ViscoPlastic.Norton(2.0, 3.0, 1.0), **kw), dict(j2=True, rate=True, dim=3, ps=False)))
     combos.append(("VM+Perzyna plane strain", lambda **kw: Behavior(2, el(), yieldSurface=Yield.VonMises(sy), rate=ViscoPlastic.Perzyna(0.5, 2.0, 1.0), **kw), dict(j2=True, rate=True, dim=2, ps=False)))
     combos.append(("VM+linear+Maxwell 3D", lambda **kw: Behavior(3, el(), yieldSurface=Yield.VonMises(sy), hardening=IsotropicHardening.Linear(20.0), branches=(Maxwell(0.2, 0.5), Maxwell(0.1, 2.0)), **kw), dict(j2=True, rate=True, dim=3, ps=False, visco=True)))
+    # kinematic hardening AND viscous branches: the branches move the stress the back-stress evolution reads
+    combos.append(("VM+linear+AF+Maxwell 3D", lambda **kw: Behavior(3, el(), yieldSurface=Yield.VonMises(sy), hardening=IsotropicHardening.Linear(20.0), kinematic=KinematicHardening.ArmstrongFrederick(40.0, 5.0),
+                                                                    branches=(Maxwell(0.3, 2.0),), **kw), dict(j2=True, rate=True, dim=3, ps=False, visco=True)))
+    combos.append(("VM+Prager+Maxwell 3D", lambda **kw: Behavior(3, el(), yieldSurface=Yield.VonMises(sy), kinematic=KinematicHardening.Prager(30.0), branches=(Maxwell(0.2, 0.5), Maxwell(0.1, 2.0)), **kw),
+                   dict(j2=True, rate=True, dim=3, ps=False, visco=True)))
     combos.append(("Maxwell only 3D", lambda **kw: Behavior(3, el(), branches=(Maxwell(0.3, 1.0),), **kw), dict(j2=False, rate=True, dim=3, ps=False, visco=True, noyield=True)))
     return combos, E, v, sy
 
@@ -135,7 +140,7 @@ def main():
                     break
                 # repeatability (purity): same call, same answer
                 sig2 = np.asarray(beh.Integrate(fe(eps), z, dt, fe(eps_prev))[0])[0, 0]
-                if np.abs(sig2 - sig).max() > 1e-12 * (1 + np.abs(sig).max()):
+                if not (np.abs(sig2 - sig).max() <= 1e-12 * (1 + np.abs(sig).max())):
                     res.fail("Integrate is not repeatable", f"two identical calls return stresses differing by {np.abs(sig2 - sig).max():.2e} ({name})", ident)
                 eps6 = np.asarray(beh.Compute_strain_6d(fe(eps), z, dt))[0, 0]
                 sig6 = np.asarray(beh.Compute_sigma(fe(eps6), znew))[0, 0]
@@ -143,9 +148,9 @@ def main():
                     pass
                 if slot_p is not None:
                     dp = zn[slot_p][0] - zo[slot_p][0]
-                    if dp < -1e-12:
+                    if not (dp >= -1e-12):
                         res.fail(f"accumulated plastic strain decreases behavior={name}", f"p decreases by {-dp:.2e} in one step", ident)
-                    if info.get("j2") and abs(zn[slot_ep][:3].sum()) > 1e-10:
+                    if info.get("j2") and not (abs(zn[slot_ep][:3].sum()) <= 1e-10):
                         res.fail(f"plastic strain not traceless behavior={name}", f"trace of the plastic strain = {zn[slot_ep][:3].sum():.2e} for J2 flow", ident)
                     if not info.get("rate"):
                         # yield function at the updated state, through the model's own surface and hardening force
@@ -154,7 +159,7 @@ def main():
                             Xv = np.asarray(X)[0, 0] if not np.isscalar(X) else 0.0
                             R = float(np.asarray(beh._Behavior__hardening.R(np.asarray(zn[slot_p])))[0])
                             f = float(np.asarray(beh._Behavior__yield.f(fe(sig6 - Xv), fe([R])[..., 0]))[0, 0])
-                            if f > 1e-7 * sy:
+                            if not (f <= 1e-7 * sy):
                                 res.fail(f"stress outside the yield surface behavior={name}", f"f = {f:.3e} > 0 after integration", ident)
                         except Exception as ex:  # noqa: BLE001
                             res.fail(f"yield function raises behavior={name}", f"{type(ex).__name__}: {str(ex)[:150]}", ident)
@@ -162,9 +167,9 @@ def main():
                 psi = float(np.asarray(beh.Compute_psi(fe(eps6), znew))[0, 0])
                 eps6_prev = np.asarray(beh.Compute_strain_6d(fe(eps_prev), z, dt))[0, 0] if dim == 2 and info["ps"] else (eps_prev if dim == 3 else np.array([eps_prev[0], eps_prev[1], 0, 0, 0, eps_prev[2]]))
                 D = float(sig6 @ (eps6 - eps6_prev)) - (psi - psi_prev)
-                if D < -1e-9 * (1 + abs(psi)):
+                if not (D >= -1e-9 * (1 + abs(psi))):
                     res.fail(f"negative dissipation behavior={name}", f"sigma : d eps - d psi = {D:.3e} < 0 in one step", ident)
-                if dim == 2 and info["ps"] and abs(sig6[2]) > 1e-6 * sy:
+                if dim == 2 and info["ps"] and not (abs(sig6[2]) <= 1e-6 * sy):
                     res.fail(f"out-of-plane stress in plane stress behavior={name}", f"sigma_zz = {sig6[2]:.3e}", ident)
                 # tangent vs central finite difference of the stress (rate-independent and rate-dependent alike)
                 if k % 3 == 1 and Calg is not None:
@@ -182,7 +187,7 @@ def main():
                         Cb[:, j] = (sig - sm) / h
                     # at the elastic / plastic switch the stress has a kink: the tangent must then be one of the one-sided derivatives
                     err = min(np.abs(Cx - Ca).max() for Cx in (Cc, Cf, Cb)) / np.abs(Ca).max()
-                    if err > 1e-4:
+                    if not (err <= 1e-4):
                         res.fail(f"tangent is not the derivative of the stress behavior={name}", f"max |C_alg - d sigma / d eps| / |C| = {err:.2e} (central, forward and backward differences, h = 1e-6)", ident)
                 # correspondence with the scalar return mapping (von Mises + linear hardening, 3D / plane strain)
                 if info.get("lin") and not info["ps"]:
@@ -208,13 +213,13 @@ def main():
                     sb, _, znb, okb = beh.Integrate(eb, zb, dt, pb)
                     sb, znb = np.asarray(sb), np.asarray(znb)
                     gap = np.abs(sb - sref).max()
-                    if bool(np.asarray(okb).all()) and gap > 2e-5 * sy:
+                    if bool(np.asarray(okb).all()) and not (gap <= 2e-5 * sy):
                         res.fail(f"a point of a field does not behave as that point alone behavior={name}",
                                  f"Integrate on a field of {len(batch)} points ({shape_[0]}) differs from the same points integrated one by one: max |stress gap| = {gap:.3e}", identb)
                     if dim == 2 and info["ps"] and bool(np.asarray(okb).all()):
                         e6b = beh.Compute_strain_6d(eb, zb, dt)
                         szz = np.asarray(beh.Compute_sigma(e6b, FeArray.asfearray(znb)))[..., 2]
-                        if np.abs(szz).max() > 1e-5 * sy:
+                        if not (np.abs(szz).max() <= 1e-5 * sy):
                             res.fail(f"out-of-plane stress in plane stress behavior={name}",
                                      f"on a field of {len(batch)} points sigma_zz reaches {np.abs(szz).max():.3e} at point {int(np.abs(szz).argmax())}", identb)
                 except Exception as ex:  # noqa: BLE001
@@ -227,7 +232,7 @@ def main():
                 a = np.asarray(bn.Integrate(fe(eps))[0])[0, 0]
                 b = np.asarray(bs.Integrate(fe(eps))[0])[0, 0]
                 res.case((name, "solvers"))
-                if np.abs(a - b).max() > 1e-7 * (1 + np.abs(a).max()):
+                if not (np.abs(a - b).max() <= 1e-7 * (1 + np.abs(a).max())):
                     res.fail(f"local solvers disagree behavior={name}", f"Newton and spectral returns differ by {np.abs(a - b).max():.2e}", dict(behavior=name, strain=eps.tolist()))
             except Exception as ex:  # noqa: BLE001
                 res.fail(f"local solver comparison raises behavior={name}", f"{type(ex).__name__}: {str(ex)[:120]}", dict(behavior=name))
@@ -248,7 +253,7 @@ def main():
                     outs_[solver_] = (np.asarray(sg_)[0, 0], bool(np.asarray(ok_).all()))
                 if outs_["auto"][1] and outs_["newton"][1]:
                     gap_ = np.abs(outs_["auto"][0] - outs_["newton"][0]).max()
-                    if gap_ > 1e-7 * (1 + np.abs(outs_["newton"][0]).max()):
+                    if not (gap_ <= 1e-7 * (1 + np.abs(outs_["newton"][0]).max())):
                         res.fail(f"local solvers disagree rate={law_} exponent={args_[1]}",
                                  f"both local solvers report convergence but their stresses differ by {gap_:.2e} (default solver vs solver='newton', dt = {dt_})", dict(identr, strain=eps_.tolist()))
             except Exception as ex:  # noqa: BLE001
@@ -285,7 +290,7 @@ def main():
             sig, Calg, _, _ = beh.Integrate(fe(eps))
             res.case(("elastic", dim, ps))
             want = np.asarray(ref.C) @ eps
-            if np.abs(np.asarray(sig)[0, 0] - want).max() > 1e-9 * (1 + np.abs(want).max()) or np.abs(np.asarray(Calg)[0, 0] - np.asarray(ref.C)).max() > 1e-8 * np.abs(ref.C).max():
+            if not (np.abs(np.asarray(sig)[0, 0] - want).max() <= 1e-9 * (1 + np.abs(want).max())) or not (np.abs(np.asarray(Calg)[0, 0] - np.asarray(ref.C)).max() <= 1e-8 * np.abs(ref.C).max()):
                 res.fail(f"material without internal variables is not linear elastic dim={dim} planeStress={ps}", "stress or tangent differs from C eps / C", dict(dim=dim, planeStress=ps, strain=eps.tolist()))
 
     # ---------------- simulation: committed state before / after Solve and Save_Iter ----------------
@@ -367,7 +372,7 @@ def main():
                 fv = mkv()
                 stepv(fv, 0.0005)
                 gapv = np.abs(np.asarray(sv.Result("Stress", nodeValues=False)) - np.asarray(fv.Result("Stress", nodeValues=False))).max()
-                if gapv > 1e-8:
+                if not (gapv <= 1e-8):
                     res.fail("roll-back to a virgin iteration keeps a history", f"an elastic step solved after Set_Iter(0) differs from the same step on a fresh simulation: stress gap {gapv:.3e}", identv)
         except Exception as ex:  # noqa: BLE001
             res.fail("roll-back to a virgin iteration raises", f"{type(ex).__name__}: {str(ex)[:140]}", identv)
@@ -400,14 +405,14 @@ def main():
                 gap_s = max(gap_s, float(np.abs(np.asarray(s_k)[0, 0] - sig_h[k]).max()))
                 gap_z = max(gap_z, float(np.abs(np.asarray(z_k)[0, 0] - st_h[k]).max()))
                 zprev = fe(st_h[k])
-            if gap_s > 1e-7 * sy or gap_z > 1e-10:
+            if not (gap_s <= 1e-7 * sy) or not (gap_z <= 1e-10):
                 res.fail("MaterialPoint.Run: a recorded step is not one integration away from the previous recorded state",
                          f"max |stress_k - Integrate(strain_k, state_(k-1))| = {gap_s:.2e}, max state gap = {gap_z:.2e}: trial iterates of the stress-control loop advanced the history", ident)
                 continue
-            if ph is not None and np.diff(ph).min() < -1e-13:
+            if ph is not None and not (np.diff(ph).min() >= -1e-13):
                 res.fail("MaterialPoint.Run: accumulated plastic strain decreases", f"min increment {np.diff(ph).min():.2e}", ident)
             free = [i for i, c in enumerate(["xx", "yy", "zz", "yz", "xz", "xy"]) if c not in strain]
-            if np.abs(sig_h[:, free]).max() > 1e-6 * sy:
+            if not (np.abs(sig_h[:, free]).max() <= 1e-6 * sy):
                 res.fail("MaterialPoint.Run: a stress-controlled component is not stress-free", f"max |sigma_free| = {np.abs(sig_h[:, free]).max():.2e}", ident)
 
     answers = driver.ask(lines)
@@ -422,13 +427,13 @@ def main():
                 except Exception:  # noqa: BLE001
                     res.disagree("return-mapping", dict(ident, model=ans[:80]))
                     continue
-                if np.abs(model - real).max() > 1e-7 * (1 + np.abs(real).max()):
+                if not (np.abs(model - real).max() <= 1e-7 * (1 + np.abs(real).max())):
                     res.disagree("return-mapping", dict(ident, model=model.tolist(), real=real.tolist()))
             else:
                 if int(ans.split()[2]) != real:
                     res.disagree("state-machine", dict(ident, model=ans, real_saved=real))
     res.search_note = "admissibility, monotonicity, dissipation, tangent consistency, solver agreement and purity hold on the sampled paths"
-    res.write("17 behaviours (von Mises / Hill / Drucker-Prager; no / linear / Voce / Swift hardening; Prager / Armstrong-Frederick / Chaboche; Norton / Perzyna; Maxwell branches; 3D / plane strain / plane stress) "
+    res.write("19 behaviours (von Mises / Hill / Drucker-Prager; no / linear / Voce / Swift hardening; Prager / Armstrong-Frederick / Chaboche; Norton / Perzyna; Maxwell branches; 3D / plane strain / plane stress) "
               "along piecewise-linear strain paths with reversals and direction changes; per step: finiteness, purity and repeatability of Integrate, p monotone, traceless J2 flow, f <= 0, dissipation, sigma_zz in plane stress, "
               "tangent vs central differences; Newton vs spectral local solve; no internal variable = linear elasticity; committed state of Simulations.InElastic around Solve / Save_Iter / Set_Iter; "
               "distinct = distinct (behaviour, path, step)")
